@@ -59,55 +59,55 @@ fn dispatch_inner(prop: &str, ctx: Ctx, replay: Option<&str>) -> i32 {
     }
     match prop {
         "C01" => {
-            crate::run::start_watchdog(std::time::Duration::from_secs(180), None);
+            crate::run::start_watchdog(std::time::Duration::from_secs(ctx.tier.pick(180, 1800)), None);
             let rep = c01::run(ctx);
             finish(rep, c01::meta(), ctx.tier, ctx.seed, started)
         }
         "C04" => {
-            crate::run::start_watchdog(std::time::Duration::from_secs(180), None);
+            crate::run::start_watchdog(std::time::Duration::from_secs(ctx.tier.pick(180, 1800)), None);
             let rep = c04::run(ctx);
             finish(rep, c04::meta(), ctx.tier, ctx.seed, started)
         }
         "C05" => {
-            crate::run::start_watchdog(std::time::Duration::from_secs(180), None);
+            crate::run::start_watchdog(std::time::Duration::from_secs(ctx.tier.pick(180, 1800)), None);
             let rep = c05::run(ctx);
             finish(rep, c05::meta(), ctx.tier, ctx.seed, started)
         }
         "C11" => {
-            crate::run::start_watchdog(std::time::Duration::from_secs(180), None);
+            crate::run::start_watchdog(std::time::Duration::from_secs(ctx.tier.pick(180, 1800)), None);
             let rep = c11::run(ctx);
             finish(rep, c11::meta(), ctx.tier, ctx.seed, started)
         }
         "C09" => {
-            crate::run::start_watchdog(std::time::Duration::from_secs(180), None);
+            crate::run::start_watchdog(std::time::Duration::from_secs(ctx.tier.pick(180, 1800)), None);
             let rep = c09::run(ctx);
             finish(rep, c09::meta(), ctx.tier, ctx.seed, started)
         }
         "C14" => {
-            crate::run::start_watchdog(std::time::Duration::from_secs(240), None);
+            crate::run::start_watchdog(std::time::Duration::from_secs(ctx.tier.pick(240, 1800)), None);
             let rep = c14::run(ctx);
             finish(rep, c14::meta(), ctx.tier, ctx.seed, started)
         }
         "C12" => {
-            crate::run::start_watchdog(std::time::Duration::from_secs(240), None);
+            crate::run::start_watchdog(std::time::Duration::from_secs(ctx.tier.pick(240, 1800)), None);
             let mut rep = c12::run_pool_level(ctx);
             rep.merge(c13::run_c12_client_level(ctx));
             finish(rep, c12::meta(), ctx.tier, ctx.seed, started)
         }
         "C06" => {
-            crate::run::start_watchdog(std::time::Duration::from_secs(240), None);
+            crate::run::start_watchdog(std::time::Duration::from_secs(ctx.tier.pick(240, 1800)), None);
             let mut rep = c06::run(ctx);
             rep.merge(c06::run_e2e(ctx));
             finish(rep, c06::meta(), ctx.tier, ctx.seed, started)
         }
         "C19" => {
-            crate::run::start_watchdog(std::time::Duration::from_secs(240), None);
+            crate::run::start_watchdog(std::time::Duration::from_secs(ctx.tier.pick(240, 1800)), None);
             let mut rep = c19::run_session_level(ctx);
             rep.merge(c19::run_client_level(ctx));
             finish(rep, c19::meta(), ctx.tier, ctx.seed, started)
         }
         "C02" => {
-            crate::run::start_watchdog(std::time::Duration::from_secs(240), None);
+            crate::run::start_watchdog(std::time::Duration::from_secs(ctx.tier.pick(240, 1800)), None);
             let rep = c02::run(ctx);
             finish(rep, c02::meta(), ctx.tier, ctx.seed, started)
         }
@@ -118,42 +118,42 @@ fn dispatch_inner(prop: &str, ctx: Ctx, replay: Option<&str>) -> i32 {
             finish(rep, c20::meta(), ctx.tier, ctx.seed, started)
         }
         "C07" => {
-            crate::run::start_watchdog(std::time::Duration::from_secs(900), None);
+            crate::run::start_watchdog(std::time::Duration::from_secs(ctx.tier.pick(900, 5400)), None);
             let rep = c07::run(ctx);
             finish(rep, c07::meta(), ctx.tier, ctx.seed, started)
         }
         "C10" => {
-            crate::run::start_watchdog(std::time::Duration::from_secs(900), None);
+            crate::run::start_watchdog(std::time::Duration::from_secs(ctx.tier.pick(900, 5400)), None);
             let rep = c10::run(ctx);
             finish(rep, c10::meta(), ctx.tier, ctx.seed, started)
         }
         "C16" => {
-            crate::run::start_watchdog(std::time::Duration::from_secs(900), None);
+            crate::run::start_watchdog(std::time::Duration::from_secs(ctx.tier.pick(900, 5400)), None);
             let rep = c16::run(ctx);
             finish(rep, c16::meta(), ctx.tier, ctx.seed, started)
         }
         "C17" => {
-            crate::run::start_watchdog(std::time::Duration::from_secs(900), None);
+            crate::run::start_watchdog(std::time::Duration::from_secs(ctx.tier.pick(900, 5400)), None);
             let rep = c17::run(ctx);
             finish(rep, c17::meta(), ctx.tier, ctx.seed, started)
         }
         "C18" => {
-            crate::run::start_watchdog(std::time::Duration::from_secs(600), None);
+            crate::run::start_watchdog(std::time::Duration::from_secs(ctx.tier.pick(600, 3600)), None);
             let rep = c18::run(ctx);
             finish(rep, c18::meta(), ctx.tier, ctx.seed, started)
         }
         "C15" => {
-            crate::run::start_watchdog(std::time::Duration::from_secs(900), None);
+            crate::run::start_watchdog(std::time::Duration::from_secs(ctx.tier.pick(900, 5400)), None);
             let rep = c15::run(ctx);
             finish(rep, c15::meta(), ctx.tier, ctx.seed, started)
         }
         "C08" => {
-            crate::run::start_watchdog(std::time::Duration::from_secs(900), None);
+            crate::run::start_watchdog(std::time::Duration::from_secs(ctx.tier.pick(900, 5400)), None);
             let rep = c08::run(ctx);
             finish(rep, c08::meta(), ctx.tier, ctx.seed, started)
         }
         "C13" => {
-            crate::run::start_watchdog(std::time::Duration::from_secs(900), None);
+            crate::run::start_watchdog(std::time::Duration::from_secs(ctx.tier.pick(900, 5400)), None);
             let rep = c13::run(ctx);
             finish(rep, c13::meta(), ctx.tier, ctx.seed, started)
         }
